@@ -45,6 +45,52 @@ Theorem C05_local_never_outer : forall c e fs a up x,
 Proof. exact local_never_outer. Qed.
 Print Assumptions C05_local_never_outer.
 
+(* Existence (the converse direction, used by C01's inter-scope glue), repaired rule: wherever
+   CPython's lookup can succeed, supp offers an owner in that same scope.
+   - py_owner = OScope d (a closure variable owned by the enclosing function at depth d, or a local of
+     the reading scope itself when d is its own depth): OScope d is among supp's candidate owners.
+     No premise "block d binds x" is needed: it is a consequence (C05_owner_binds).
+     For d = the reading scope's own depth this says that the scope's own names are among the
+     candidates; whether the binding precedes the read is flow-sensitive and is C01's intra-scope theorem.
+   - py_owner = OGlobal: if the module-level lookup of supp can succeed (the module binds x as its own
+     name, or some block binds it under `global`, or it is a builtin), supp offers a module-level or
+     builtin owner.
+   Holds for class-body reads too; needs neither nonlocal_ok (py_owner = None on illegal nonlocals) nor
+   in_domain. *)
+Theorem C05_owner_exists : forall e fs x,
+  shape_ok fs = true ->
+  match py_owner fs x with
+  | Some (OScope d) => In (OScope d) (supp_owners cfg_fixed e fs x)
+  | Some OGlobal => module_offers e fs x = true ->
+                    exists o, In o (supp_owners cfg_fixed e fs x) /\ coarse o = OGlobal
+  | _ => True
+  end.
+Proof. exact supp_owner_exists. Qed.
+Print Assumptions C05_owner_exists.
+
+(* The block CPython resolves a local / closure variable to is on the chain and binds the name. *)
+Theorem C05_owner_binds : forall fs x d,
+  py_owner fs x = Some (OScope d) ->
+  exists f, nth_error fs d = Some f /\ mem x (fbound f) = true.
+Proof. exact py_owner_binds. Qed.
+Print Assumptions C05_owner_binds.
+
+(* Non-vacuity of C05_owner_exists on the chain of C05_example (x closure variable of f through a class
+   and a nonlocal declaration; y module-level; z routed by `global`; len builtin; w=9 bound nowhere):
+   both branches of the match are reached with their premises true, and for w the premise is false. *)
+Example C05_owner_exists_example :
+  let fs := [Frame KModule [1; 2; 5]%N [] []; Frame KFunction [1; 3; 6]%N [] [];
+             Frame KClass [1; 2; 7]%N [] []; Frame KFunction [8; 1; 3]%N [3]%N [1]%N;
+             Frame KLambda [] [] []] in
+  let e := Env (fun n => N.eqb n 4) (fun n => N.eqb n 3) in
+  shape_ok fs = true /\
+  map (py_owner fs) [1; 2; 3; 4; 9]%N =
+    [Some (OScope 1); Some OGlobal; Some OGlobal; Some OGlobal; Some OGlobal] /\
+  map (module_offers e fs) [2; 3; 4; 9]%N = [true; true; true; false] /\
+  In (OScope 1) (supp_owners cfg_fixed e fs 1%N) /\
+  map (supp_owners cfg_fixed e fs) [2; 3; 4; 9]%N = [[OModule]; [OModule]; [OBuiltin]; []].
+Proof. vm_compute. repeat split; try reflexivity. left. reflexivity. Qed.
+
 (* Without the repairs (any configuration, in particular cfg_pinned = the tree before F14/F26) the
    statement holds on the sub-domain: no block of the chain declares x nonlocal, and no block declares
    x global below a function that binds x. *)
